@@ -550,10 +550,17 @@ func (b BindlistInstr) Execute(env *Zlisp) error {
 	}
 
 	for i, bindThisSym := range b.syms {
-		// e.g. a string for a variable that holds an int64: refused
-		// by def, so by mdef too.
 		if err := env.LexicalBindSymbol(bindThisSym, arr[i]); err != nil {
-			return err
+			// The target holds a value of another type in this
+			// scope. mdef declares its targets - range uses it for
+			// the loop variables, which take a key and a value of
+			// any type on every round - so this is a new binding,
+			// not an assignment: replace the old one. (Ignoring
+			// the error, as was done here, left the stale value.)
+			env.linearstack.DeleteSymbolFromTopOfStackScope(bindThisSym)
+			if err := env.LexicalBindSymbol(bindThisSym, arr[i]); err != nil {
+				return err
+			}
 		}
 	}
 	env.pc++
